@@ -483,9 +483,11 @@ func (e *env) runKnownBad(c *vh.Ctx) {
 		// classify through the same scan as random schemas
 		inst := instantiateSet(it.files, "zz.scan", "example.com/zzscan", "zzscan", func(s string) string { return s })
 		finds, _ := scanAllLevels(inst, []string{inst[0].GetName()})
+		// the class the witness was written for, or (when that defect has been repaired and the witness now
+		// fails for another listed reason) whatever listed class the scan finds
 		sig := ""
 		for _, f := range finds {
-			if f.Sig == it.b.sig {
+			if f.Sig != "" && f.Sig != steerSchemaIdent && (sig == "" || f.Sig == it.b.sig) {
 				sig = f.Sig
 			}
 		}
